@@ -162,11 +162,13 @@ func runC05(tier string) int {
 	})
 	// Files with hoisted data and several statement kinds: same hoisted data and user-visible labels in both forms.
 	anyChunk := regexp.MustCompile(`^[A-Za-z0-9_]+_[0-9]+$`)
-	for _, fp := range fileLevelPrograms(tier) {
-		ro := comp.Compile(fp.Src, comp.Opts{Optimize: true})
-		rn := comp.Compile(fp.Src, comp.Opts{Optimize: false})
+	evalFile := func(fp *fileProgram) {
+		oo, on := fp.Opts, fp.Opts
+		oo.Optimize, on.Optimize = true, false
+		ro := comp.Compile(fp.Src, oo)
+		rn := comp.Compile(fp.Src, on)
 		if ro.Err != nil || rn.Err != nil {
-			continue
+			return
 		}
 		r.Add("evaluations", 1)
 		r.Add("file_level_programs", 1)
@@ -199,14 +201,32 @@ func runC05(tier string) int {
 		if gotosO > gotosN {
 			what = append(what, "optimized form has more generated gotos")
 		}
+		// behaviour from the entry of every script of the file (inline map scripts included)
+		if len(fp.Owners) > 0 {
+			opts := machine.ReadOpts{Owners: fp.Owners, UserLabels: fp.UserLabels, DataLabels: fp.DataLabels}
+			po, pn := machine.ReadAsm(ro.Out, opts), machine.ReadAsm(rn.Out, opts)
+			for _, o := range fp.Owners {
+				if _, ok := pn.Labels[o]; !ok {
+					continue
+				}
+				st, v := machine.Explore(pn, po, o, o, machine.Lazy)
+				addStats(r, st)
+				if v != nil && !(v.A == v.B) {
+					what = append(what, "optimized and unoptimized outputs behave differently from entry "+o+": "+v.String())
+				}
+			}
+		}
 		for _, w := range what {
 			src := fp.Src
-			r.Report(harness.Violation{Sig: "C05:file:" + firstWords(w, 3), Summary: fmt.Sprintf("%s: %s", fp.Desc, w), Replay: map[string]interface{}{"source": src, "optimized": ro.Out, "unoptimized": rn.Out, "problem": w}})
+			r.Report(harness.Violation{Sig: "C05:file:" + firstWords(w, 3), Summary: fmt.Sprintf("%s: %s\n  source: %q", fp.Desc, w, clip(src, 500)), Replay: map[string]interface{}{"source": src, "optimized": ro.Out, "unoptimized": rn.Out, "problem": w}})
 		}
 	}
+	// the file-level programs and the data families (C06 hoisting files, C08 mapscripts statements with several inline
+	// scripts of different shapes)
+	forEachDataFamilyFile(r, tier, evalFile)
 	r.Set("traces_validated_against_impl", r.Get("transitions"))
 	r.Assume("generated sub-labels are exactly the labels of the form <script>_<n>; user names never imitate them (generator guarantee)",
 		"clause readings: 'only reorders code and removes jumps' = the multiset of lines other than generated gotos and generated labels is identical and the optimized form has no more generated gotos")
 	return r.Finish(r.Get("evaluations"), r.Get("nontrivial"),
-		"the C01 families and C03 switch programs (re-enumerated here); each case = one program compiled with optimize on and off, product exploration asm(on) x asm(off) over all game states plus static clauses (no goto to the next line, no unreferenced generated label, same visible labels, same non-goto lines); non-trivial = the two forms differ textually")
+		"the C01 families and C03 switch programs (re-enumerated here), plus the file-level programs and the data families (C06 hoisting files, C08 mapscripts statements with several inline scripts; reduced bounds); each case = one program compiled with optimize on and off, product exploration asm(on) x asm(off) over all game states plus static clauses (no goto to the next line, no unreferenced generated label, same visible labels, same non-goto lines); non-trivial = the two forms differ textually")
 }
